@@ -79,7 +79,13 @@ impl<'a> Planner<'a> {
         // ORDER BY (must go before the projection since it needs the full input schema)
         let sorted = if !select.order_by.is_empty() {
             let input_props = self.get_group_properties(having_applied)?;
-            self.build_sort(having_applied, &select.order_by, &input_props.schema)?
+            if aggregated != filtered {
+                // The sort runs over the OUTPUT of the aggregation, not over the FROM clause
+                let order_by = Self::rebind_order_by_to_output(&select.columns, &select.order_by)?;
+                self.build_sort(having_applied, &order_by, &input_props.schema)?
+            } else {
+                self.build_sort(having_applied, &select.order_by, &input_props.schema)?
+            }
         } else {
             having_applied
         };
@@ -107,6 +113,42 @@ impl<'a> Planner<'a> {
         )?;
 
         Ok(limited)
+    }
+
+    /// Rebinds the sort keys of an aggregate query to the output of the aggregation: a key bound
+    /// against the FROM clause would index the wrong column there. Each key has to be one of the
+    /// select items and becomes a reference to that item's output position.
+    fn rebind_order_by_to_output(
+        columns: &[BoundSelectItem],
+        order_by: &[BoundOrderBy],
+    ) -> PlannerResult<Vec<BoundOrderBy>> {
+        let mut rebound = Vec::with_capacity(order_by.len());
+        for key in order_by {
+            let mut found = None;
+            for item in columns {
+                if found.is_none() && item.expr == key.expr {
+                    found = Some(BoundOrderBy {
+                        expr: BoundExpression::ColumnBinding(Binding {
+                            table_id: None,
+                            scope_index: 0,
+                            column_idx: item.output_idx,
+                            data_type: item.expr.data_type(),
+                        }),
+                        asc: key.asc,
+                        nulls_first: key.nulls_first,
+                    });
+                }
+            }
+            match found {
+                Some(bound) => rebound.push(bound),
+                None => {
+                    return Err(PlannerError::Other(
+                        "ORDER BY of an aggregate query must name a select item".to_string(),
+                    ));
+                }
+            }
+        }
+        Ok(rebound)
     }
 
     fn build_table_ref(&mut self, table_ref: &BoundTableRef) -> PlannerResult<GroupId> {
